@@ -904,8 +904,10 @@ def assemble(unit_path, repo, vf_dir):
                     i += 1
                     continue
                 if st.startswith('%fsubst'):
-                    mm = re.match(r'%fsubst\s+/(.*)/\s*=>\s*(.*)$', st)
-                    f.opts.setdefault('subst', []).append((mm.group(1), mm.group(2)))
+                    # `%fsubst? /rx/ => rep`: a rule that may not apply (several ways the source can spell one
+                    # construct); `%fsubst` without `?` must apply at least once or the extraction is LOST
+                    mm = re.match(r'%fsubst(\?)?\s+/(.*)/\s*=>\s*(.*)$', st)
+                    f.opts.setdefault('subst', []).append((mm.group(2), mm.group(3), bool(mm.group(1))))
                     i += 1
                     continue
                 if st.startswith('%') or (st and not l2[0].isspace()):
@@ -960,10 +962,11 @@ def assemble(unit_path, repo, vf_dir):
                 body, n = _replace_macro_calls(body, mname, expand)
                 A.counts.hit('D7b_local_macro_expanded', n)
             body = rewrite_body(body, A.counts, opts)
-            for pat, rep in opts.get('subst', []):
+            for sub in opts.get('subst', []):
+                pat, rep, optional = (sub + (False,))[:3]
                 body, n1 = re.subn(pat, rep, body)
                 text_sig, n2 = re.subn(pat, rep, text_sig)
-                if n1 + n2 == 0:
+                if n1 + n2 == 0 and not optional:
                     raise Lost('substitution /%s/ did not apply in fn %s' % (pat, f.name))
                 A.counts.hit('Dx_fn_subst', n1 + n2)
             for pat, rep in unit_subst:
